@@ -3172,7 +3172,7 @@ class KmipEngine(object):
                 "No data to be MACed"
             )
 
-        if managed_object.state != enums.State.ACTIVE:
+        if getattr(managed_object, 'state', None) != enums.State.ACTIVE:
             raise exceptions.PermissionDenied(
                 "Object is not in a state that can be used for MACing."
             )
